@@ -91,3 +91,32 @@ void h_md_key(void) {
   for (unsigned i = 0; i < 16; i++) if (i < len) VASSERT(o.f8.e[i] == in[hdr + i], "key bytes verbatim (first 16 observed)");
   if (c >= 0xb0 && c <= 0xbf) VWITNESS("fixstr16+"); else VWITNESS("ok");
 }
+
+/* ---- C11: parseVariant<Filter> on scalars / strings / bin / ext. FSHAPE 0 true, 1 false, 2 {} (object filter), 3 [] (array
+ * filter), 4 null. A value is stored only under `true`; under an object or array filter a scalar stays null (its kind is
+ * not admitted); the bytes consumed and the code are those of the unfiltered run; nothing is allocated for dropped values. */
+#ifdef CUT_RAF
+static unsigned g_fcont;
+uint32_t CUT_RAF(struct S_AJ__detail__MsgPackDeserializer* d, struct S_AJ__detail__VariantData* v, uint64_t n, struct S_AJ__detail__VariantData* fd, struct S_AJ__detail__ResourceManager* frm, uint8_t limit) { g_fcont++; return OK; }
+uint32_t CUT_ROF(struct S_AJ__detail__MsgPackDeserializer* d, struct S_AJ__detail__VariantData* v, uint64_t n, struct S_AJ__detail__VariantData* fd, struct S_AJ__detail__ResourceManager* frm, uint8_t limit) { g_fcont++; return OK; }
+#ifndef FSHAPE
+#define FSHAPE 2
+#endif
+void h_md_variant_filter(void) {
+  uint8_t in[NB]; for (unsigned i = 0; i < NB; i++) in[i] = vin_u8();
+  uint32_t n = vin_u32(); VASSUME(n <= NB && n >= 1);
+  uint8_t c = in[0];
+  /* scalars, strings, bin, ext only (containers are handed to the cut readers) */
+  int container = (c & 0xf0) == 0x90 || (c & 0xf0) == 0x80 || c == 0xdc || c == 0xdd || c == 0xde || c == 0xdf;
+  VASSUME(!container);
+  struct S_MOut f, u; memset(&f, 0, sizeof f); memset(&u, 0, sizeof u);
+  w_md_parse_variant_f(in, n, FSHAPE, &f);
+  w_md_parse_variant(in, n, 0, 5, &u);       /* the unfiltered run */
+  VOBS(f.f0); VOBS(f.f1); VOBS(f.f2); VOBS(u.f0); VOBS(u.f1); VOBS(u.f2);
+  if (FSHAPE == 0) { VASSERT(f.f0 == u.f0 && f.f1 == u.f1 && f.f2 == u.f2 && f.f3 == u.f3 && f.f7 == u.f7, "the filter true is the identity"); VWITNESS("identity"); return; }
+  VASSERT(f.f2 == 0, "a scalar / string / bin / ext is stored only under the filter true: under false, null, an object filter or an array filter the value stays null");
+  if (u.f0 == OK) { VASSERT(f.f0 == OK && f.f1 == u.f1, "an input the unfiltered run accepts is accepted with the filter, consuming the same bytes"); VWITNESS("ok"); }
+  if (u.f0 == INCOMPLETE || u.f0 == INVALID) VASSERT(f.f0 == u.f0, "truncated / invalid input is classified the same way");
+  VASSERT(f.f6 == 0, "nothing is allocated for a dropped value: filtering never requests more memory than the unfiltered run");
+}
+#endif
